@@ -589,6 +589,59 @@ class Emitter:
                     if ins.op == 'cast' and ins.cop == 'ptrtoint' and ins.res is not None and ins.ty.kind == 'int' \
                             and ins.ty.bits == 64:
                         self.ptrtoint_src[ins.res] = ins.a
+        # opt-in (rt_defs VF_PTR_ATOMICS): clang lowers std::atomic<T*>::load/store to i64 accesses + inttoptr/ptrtoint, and
+        # CBMC neither propagates nor null-tests a pointer that went through an integer.  An i64 load whose every use is an
+        # inttoptr is emitted as a pointer-typed load of the same location (the inttoptr results are assigned at the
+        # load), an i64 store of a ptrtoint result as a pointer-typed store of the pointer.
+        # opt-in (rt_defs VF_UNTAG=<2^k>): `inttoptr (and X, -2^k)` (tag bits masked off an aligned object pointer) goes
+        # through vf_untag(), which resolves the address to an object registered with vf_untag_register() under a checked
+        # equality (rt: assertion), so that symex sees a constant offset instead of a whole-object byte extract.
+        self.ld_ptr_users = {}
+        self.skip_casts = set()
+        self.st_ptr_src = {}
+        self.untag_and = set()
+        rd_ = self.opts.get('rt_defs') or {}
+        if 'VF_PTR_ATOMICS' in rd_ or 'VF_UNTAG' in rd_:
+            def locals_of(x, out):
+                if isinstance(x, Local):
+                    out.append(x.name)
+                elif isinstance(x, ConstExpr):
+                    for y in x.args:
+                        locals_of(y, out)
+                elif isinstance(x, (list, tuple)):
+                    for y in x:
+                        locals_of(y, out)
+            uses = {}
+            defs_ = {}
+            for b in f.blocks:
+                for ins in b.instrs:
+                    if ins.res is not None:
+                        defs_[ins.res] = ins
+                    ops_ = []
+                    for k_, v_ in ins.__dict__.items():
+                        if k_ not in ('res', 'ty', 'op'):
+                            locals_of(v_, ops_)
+                    for n_ in ops_:
+                        uses.setdefault(n_, []).append(ins)
+            if 'VF_PTR_ATOMICS' in rd_:
+                for b in f.blocks:
+                    for ins in b.instrs:
+                        if ins.op == 'load' and ins.res is not None and ins.ty.kind == 'int' and ins.ty.bits == 64:
+                            us = uses.get(ins.res, [])
+                            if us and all(u.op == 'cast' and u.cop == 'inttoptr' and u.res is not None for u in us):
+                                self.ld_ptr_users[ins.res] = us
+                                self.skip_casts.update(u.res for u in us)
+                        if ins.op == 'store' and isinstance(ins.v, Local) and ins.v.name in defs_:
+                            d_ = defs_[ins.v.name]
+                            if d_.op == 'cast' and d_.cop == 'ptrtoint' and d_.ty.kind == 'int' and d_.ty.bits == 64:
+                                self.st_ptr_src[ins.v.name] = d_.a
+            if 'VF_UNTAG' in rd_:
+                mask_ = (1 << 64) - int(rd_['VF_UNTAG'])
+                for b in f.blocks:
+                    for ins in b.instrs:
+                        if ins.op == 'bin' and ins.bop == 'and' and ins.res is not None and ins.ty.kind == 'int' and \
+                                ins.ty.bits == 64 and isinstance(ins.b, ConstInt) and (ins.b.v & ((1 << 64) - 1)) == mask_:
+                            self.untag_and.add(ins.res)
         if self.opts.get('typed_alloc', True):
             for b in f.blocks:
                 for ins in b.instrs:
@@ -749,7 +802,8 @@ class Emitter:
         elif op == 'fneg':
             w('  %s = -%s;' % (r, self.val(ins.a)))
         elif op == 'cast':
-            w('  %s = %s;' % (r, self.cast_expr(ins)))
+            if ins.res not in getattr(self, 'skip_casts', ()):  # else: assigned at the pointer-typed load
+                w('  %s = %s;' % (r, self.cast_expr(ins)))
         elif op == 'icmp':
             w('  %s = %s;' % (r, self.icmp_expr(ins.pred, ins.a, ins.b)))
         elif op == 'fcmp':
@@ -783,7 +837,15 @@ class Emitter:
             w('  %s = %sm_%s;' % (r, '&' if n == 1 else '', r))
         elif op == 'load':
             p = self.val(ins.ptr)
-            if ins.atomic:
+            if ins.res in getattr(self, 'ld_ptr_users', {}):
+                asg = ' '.join('%s = *((%s*)%s);' % (self.lname(u.res), self.cty(u.ty), p) for u in self.ld_ptr_users[ins.res])
+                if ins.atomic:
+                    sid = self.new_site(ins, 'load')
+                    w('  VF_ATOMIC_BEGIN(%d); %s VF_ATOMIC_LOAD(%d, %s, %s); VF_ATOMIC_END(%d);'
+                      % (sid, asg, sid, p, ORD[ins.order], sid))
+                else:
+                    w('  ' + asg)
+            elif ins.atomic:
                 sid = self.new_site(ins, 'load')
                 w('  VF_ATOMIC_BEGIN(%d); %s = *%s; VF_ATOMIC_LOAD(%d, %s, %s); VF_ATOMIC_END(%d);'
                   % (sid, r, p, sid, p, ORD[ins.order], sid))
@@ -796,6 +858,11 @@ class Emitter:
             if not ins.atomic and self.guard_word(ins.ptr) is not None:
                 g = self.guard_word(ins.ptr)
                 w('  %s = (%s & ~(uint64_t)255u) | (uint64_t)(uint8_t)%s;' % (g, g, self.val(ins.v)))
+            elif ins.atomic and isinstance(ins.v, Local) and ins.v.name in getattr(self, 'st_ptr_src', {}):
+                q = self.st_ptr_src[ins.v.name]
+                sid = self.new_site(ins, 'store')
+                w('  VF_ATOMIC_BEGIN(%d); *((%s*)%s) = %s; VF_ATOMIC_STORE(%d, %s, %s); VF_ATOMIC_END(%d);'
+                  % (sid, self.cty(q.ty), p, self.val(q), sid, p, ORD[ins.order], sid))
             elif ins.atomic:
                 sid = self.new_site(ins, 'store')
                 w('  VF_ATOMIC_BEGIN(%d); *%s = %s; VF_ATOMIC_STORE(%d, %s, %s); VF_ATOMIC_END(%d);'
@@ -934,6 +1001,8 @@ class Emitter:
         if c == 'ptrtoint':
             return '((%s)(uint64_t)%s)' % (T, self.val(a))
         if c == 'inttoptr':
+            if isinstance(a, Local) and a.name in getattr(self, 'untag_and', ()):
+                return '((%s)vf_untag((uint64_t)%s))' % (T, self.val(a))
             return '((%s)(uint64_t)%s)' % (T, self.val(a))
         if c in ('sitofp',):
             return '((%s)%s)' % (T, self.sv(a))
